@@ -228,20 +228,26 @@ pub fn scored<const ITEMS: usize, const RESERVED: usize>(lens: u32, script: u64,
         inj.extend(Never::<RESERVED>, fill_t);
         total = RESERVED;
     }
-    fn push_one(inj: &crate::Injector<u32>, total: &mut usize, lens: u32) {
+    fn push_one(inj: &crate::Injector<u32>, total: &mut usize, lens: u32, all_match: usize) {
         let k = *total;
         let len = 1 + ((lens >> k) & 1) as usize;
         let c0 = sym_ab();
         let c1 = if len == 2 { sym_ab() } else { b'a' };
+        if all_match != 0 {
+            // entries mode: every item matches the (first) pattern of the script, so that the match list has a
+            // concrete length (no truncation of placeholders) and its entries can be read back
+            assume(table(all_match, text_id(len, c0, c1)).is_some());
+        }
         unsafe { (*std::ptr::addr_of_mut!(TXT))[k] = (len, c0, c1) };
         let idx = inj.push(100 + k as u32, fill_t);
         check!(idx as usize == k, "C08 pushes receive consecutive indices");
         unsafe { (*std::ptr::addr_of_mut!(DONE))[k] = true };
         *total += 1;
     }
+    let all_match = if dbg & 16 != 0 { (script % 16) as usize } else { 0 };
     let mut k = 0;
     while k < ITEMS {
-        push_one(&inj, &mut total, lens);
+        push_one(&inj, &mut total, lens, all_match);
         k += 1;
     }
     let mut pid = 0usize;
@@ -260,7 +266,7 @@ pub fn scored<const ITEMS: usize, const RESERVED: usize>(lens: u32, script: u64,
                 pid = 2;
                 n.pattern.reparse(0, PATS[2], CaseMatching::Respect, Normalization::Never, true);
             }
-            6 => push_one(&inj, &mut total, lens),
+            6 => push_one(&inj, &mut total, lens, all_match),
             8 => {
                 // the timed lock attempt of this tick gives up (outcome 1): the run it started stays pending
                 *parking_lot::VERIF_TIMED_SEQ.get() = 1;
